@@ -21,6 +21,7 @@ import (
 	"github.com/cinar/indicator/v2/helper"
 	"pgregory.net/rapid"
 	"verif/harness/engine"
+	"verif/harness/pipe"
 )
 
 func TestMain(m *testing.M) { engine.Main(m) }
@@ -742,14 +743,20 @@ func slowReaderProp() engine.AnyProp {
 					o.Failf("ReadFromCsvFile: %v", err)
 					return
 				}
-				back := []*RowD{<-ch}
 				pause := 6 * time.Second
 				if engine.Thorough() {
 					pause = 21 * time.Second
 				}
-				time.Sleep(pause)
-				for r := range ch {
-					back = append(back, r)
+				var back []*RowD
+				if verdict, detail := pipe.Call(func() {
+					back = append(back, <-ch)
+					time.Sleep(pause)
+					for r := range ch {
+						back = append(back, r)
+					}
+				}); verdict != "ok" {
+					o.Failf("a reader that paused %v after the first row never saw the end of the stream: %s: %s", pause, verdict, detail)
+					return
 				}
 				if msg := equalRows(back, rows); msg != "" {
 					o.Failf("a reader that paused %v after the first row: %s", pause, msg)
